@@ -144,5 +144,6 @@ def from_trace_e2e(tr, mode="unique", extra=None):
     mains = [e for e in evs if e.get("tag") == "main"]
     last = mains[-1] if mains else evs[-2]
     inst["res"] = [leafv(x) for x in last["res"] if x["k"] in ("int", "bool", "fxp")]
-    inst["out"] = "raise" if any(e["out"] != "ok" for e in evs) else "ok"
+    # a raise inside a `try` block that the program catches does not end the run; only the last call's outcome counts then
+    inst["out"] = "raise" if (last["out"] != "ok" or any(e["out"] != "ok" and e["depth"] == 0 and e["op"] != "try" for e in evs)) else "ok"
     return inst
